@@ -180,6 +180,9 @@ fn func_random(ctx: &EvalContext, args: &[Expr]) -> Result<i64, ExprError> {
     let max = args[0].eval(ctx)?;
     #[cfg(feature = "verif-hooks")]
     let ctx = &crate::verif_hooks::DrawRecorder { ctx, bound: max };
+    if max < 2 {
+        return Err(ExprErrorKind::EmptyRandomRange(max).into());
+    }
     Ok(ctx.random(1..max))
 }
 
